@@ -301,10 +301,19 @@ func runC19(c *Ctx) {
 		}
 		c.MustCross("C19-R4", wf, "SetFromResponseScoped", isPlainCallTo(sfrs), OnTrue("clientScope.IsValid()", scopeValid))
 		c.MustCross("C19-R4", wf, "SetFromResponseScoped", isPlainCallTo(sfrs), OnTrue("ReadResponseScope ok", ResultOf(1, readScope)))
-		for _, in := range instrsWhere(wf, isPlainCallTo(sfrs)) {
+		// the scoped store and its clamp may sit in WriteMsg or in an unexported helper
+		// split off from it (the who-may table above already ties every site to WriteMsg)
+		stores, clamps := instrsInScope(wf, isPlainCallTo(sfrs)), instrsInScope(wf, isPlainCallTo(clampScope))
+		if len(stores) == 0 {
+			c.unresolved("C19-R4", "WriteMsg|scope argument", "no SetFromResponseScoped call found in WriteMsg or its helpers")
+		}
+		if len(clamps) == 0 {
+			c.unresolved("C19-R4", "WriteMsg|ClampScope(respScope, clientScope)", "no ClampScope call found in WriteMsg or its helpers")
+		}
+		for _, in := range stores {
 			c.OriginCheck("C19-R4", "C19-R4|WriteMsg|scope argument", in, "scope", callArg(in, 3), nil, CallTo(clampScope))
 		}
-		for _, in := range instrsWhere(wf, isPlainCallTo(clampScope)) {
+		for _, in := range clamps {
 			a1, a2 := Desc(callArg(in, 1)), Desc(callArg(in, 2))
 			key := "C19-R4|WriteMsg|ClampScope(respScope, clientScope)"
 			if ResultOf(0, readScope)(a1) && FieldIs(clientScopeF)(a2) {
